@@ -164,7 +164,10 @@ Inductive aop :=
 | AClear (i : nat)
 | ASwap (i j : nat)
 | AAppendOwn (i k : nat)                  (* append(a[k]): the argument is a reference to an element of the array itself *)
-| AResizeOwn (i : nat) (n : Z) (k : nat). (* resize(n, a[k]): likewise *)
+| AResizeOwn (i : nat) (n : Z) (k : nat)  (* resize(n, a[k]): likewise *)
+| AAppendBufOwn (i off n : nat)           (* append(&a[off], n): the buffer is a range of the array's own storage *)
+| AEq (i j : nat)                         (* bool operator==(const Array&) const *)
+| ANe (i j : nat).
 
 Definition apre (sz : nat -> nat) (nv : nat) (op : aop) : bool :=
   match op with
@@ -173,6 +176,8 @@ Definition apre (sz : nat -> nat) (nv : nat) (op : aop) : bool :=
   | ACopy i j | AAssign i j | AAppendArr i j | ASwap i j => Nat.ltb i nv && Nat.ltb j nv   (* j = i allowed *)
   | ARemoveIt i k | AAppendOwn i k => Nat.ltb i nv && Nat.ltb k (sz i)
   | AResizeOwn i n k => Nat.ltb i nv && (0 <=? n) && Nat.ltb k (sz i)
+  | AAppendBufOwn i off n => Nat.ltb i nv && Nat.leb (off + n) (sz i)
+  | AEq i j | ANe i j => Nat.ltb i nv && Nat.ltb j nv
   | ARemoveFront i | ARemoveBack i => Nat.ltb i nv && Nat.ltb 0 (sz i)
   end.
 
@@ -198,6 +203,9 @@ Definition aspec (s : sstate) (op : aop) : sstate * res :=
   | ASwap i j => (upd j (sget i s) (upd i (sget j s) s), RNone)
   | AAppendOwn i k => (upd i (sget i s ++ [nth k (sget i s) 0]) s, RRef (length (sget i s)))
   | AResizeOwn i n k => (upd i (resized (Z.to_nat n) (nth k (sget i s) 0) (sget i s)) s, RNone)
+  | AAppendBufOwn i off n => (upd i (sget i s ++ firstn n (skipn off (sget i s))) s, RNone)
+  | AEq i j => (s, RBool (seq_eqb (sget i s) (sget j s)))
+  | ANe i j => (s, RBool (negb (seq_eqb (sget i s) (sget j s))))
   end.
 
 Fixpoint aspec_run (s : sstate) (ops : list aop) : list (sstate * res) :=
